@@ -70,7 +70,8 @@ def gen_case(r, idx, tmpdir):
 def script_of(case):
     L = ["newprocess", "case %d" % case["idx"], "sim_reset"] + simgen.cfg_lines(case["cfg"]) + simgen.node_lines(case["tree"], 0) + ["sim_opt thlog 1"]
     for k, s in enumerate(case["sessions"]):
-        L += ["mark s%d" % k, "sim_opt silent %d" % (0 if s["answering"] else 1), "sim_opt cap %d" % s["cap"],
+        # what the interface's MSG_SYS_MAGIC carries does not matter to the library (0xAFFE normally, 0xB00D from a boot loader)
+        L += ["mark s%d" % k, "sim_opt silent %d" % (0 if s["answering"] else 1), "sim_opt cap %d" % s["cap"], "sim_opt magic %d" % (0xB00D if (case["idx"] + k) % 5 == 0 else 0xAFFE),
               "#cfg %s" % ("valid" if s["cfg_ok"] else "invalid"),
               ("serialstart /nonexistent/ttyBiDiB %s %d" % (case["dir"] if s["cfg_ok"] else case["baddir"] + "2", s["flush"])) if s["serial"] else
               ("simstart %d %s %d" % (1 if s["debug"] else 0, case["dir"] if s["cfg_ok"] else case["baddir"] + ("2" if s["debug"] else ""), s["flush"])), "globals"]
